@@ -1,6 +1,7 @@
 import Apko.Model.Tar
 import Apko.Proofs.Lemmas.TarWalk
 import Apko.Proofs.Lemmas.TarExtract
+import Apko.Proofs.Lemmas.TarWFReach
 import Apko.Proofs.C17
 import Apko.Generated.Tar
 /-!
@@ -20,6 +21,11 @@ of the node-graph file system of `Model/FS.lean` (`walk`).
   `F06d_*` (one per hypothesis; replayed on the Go code by the suite's corpus).
 * `names_from_image_passwd` (+ `nameOf_some`, `nameOf_none`, `usersOf_of_load`).
 * `advertised_equals_written` for the digest / diff-id / size tee.
+* `nodeok_step`, `tar_wf_reachable` — `WF` is not a hypothesis about the state any more: it holds in every
+  state reachable from the empty file system through operations satisfying the decidable guard `opTarOK`
+  (`Lemmas/TarWFReach.lean`); `entries_canonical_reachable`, `extract_writeTar_partial_reachable`,
+  `walk_sorted_nodup_reachable`.  What the layer contains when the guard is violated by something the code
+  can do: `emptyLink_*`, `writeHeader_unsupported_type`, `mknod_always_char`, `mknodBlk_*`.
 -/
 namespace Apko.C06
 open Apko Apko.Path Apko.FS Apko.Tar
@@ -438,6 +444,226 @@ theorem diffid_of_gunzip {σ δ γ : Type} (h : Hasher σ δ) (z : Compressor γ
     (layerOf h z chunks).diffid = h.digest (gunzip (layerOf h z chunks).file) := by
   obtain ⟨_, _, h3, h4⟩ := advertised_equals_written h z hl hw chunks
   rw [h3, h4, hz]
+
+/-! ## `WF` holds in every reachable state -/
+
+/-- **nodeok_step**: every operation satisfying the decidable guard `opTarOK` keeps every node `nodeOK`
+(`Lemmas/TarWFReach.lean`; `DirBit` is the first conjunct of `nodeOK`, so the only other thing used of the
+state is that its root is a directory) -/
+theorem nodeok_step (c : Cfg) (fs : FS) (op : Op) (hg : opTarOK op = true) (hroot : (fs.node 0).dir = true)
+    (hn : ∀ i, nodeOK (fs.node i) = true) : ∀ i, nodeOK ((step c fs op).1.node i) = true :=
+  Tar.nodeok_step c fs op hg hroot hn
+
+/-- `WF` is preserved by every guarded operation -/
+theorem tar_wf_step (c : Cfg) (fs : FS) (op : Op) (hg : opTarOK op = true) (h : WF fs) : WF (step c fs op).1 :=
+  Tar.tar_wf_step c fs op hg h
+
+/-- the guard of `C17.dirbit_step` / `C17.wf_reachable` is implied by `opTarOK` -/
+theorem opModeOK_of_opTarOK (op : Op) (h : opTarOK op = true) : opModeOK op := Tar.opModeOK_of_opTarOK op h
+
+/-- **tar_wf_reachable** (needs `opTarOK` only): every state memfs / tarfs (Impl or Spec) can reach from the
+empty file system through guarded operations is `Tar.WF` -/
+theorem tar_wf_reachable_tarOK (c : Cfg) (ops : List Op) (hg : ∀ op ∈ ops, opTarOK op = true) :
+    WF (run c FS.empty ops).1 :=
+  Tar.tar_wf_reachable_tarOK c ops hg
+
+/-- **tar_wf_reachable** in the form of `C17.wf_reachable` -/
+theorem tar_wf_reachable (c : Cfg) (ops : List Op) (hg : ∀ op ∈ ops, opModeOK op ∧ opTarOK op = true) :
+    WF (run c FS.empty ops).1 :=
+  tar_wf_reachable_tarOK c ops fun op h => (hg op h).2
+
+/-- … and with C17's invariants: structural invariant, `DirBit`, tree shape, `nodeOK` -/
+theorem wf_both_reachable (c : Cfg) (ops : List Op) (hg : ∀ op ∈ ops, opTarOK op = true) :
+    C17.WF (run c FS.empty ops).1 ∧ WF (run c FS.empty ops).1 :=
+  ⟨C17.wf_reachable c ops fun op h => opModeOK_of_opTarOK op (hg op h), tar_wf_reachable_tarOK c ops hg⟩
+
+/-- **walk_sorted_nodup** for reachable states (only C17's guard is needed: the walk order rests on `Inv`) -/
+theorem walk_sorted_nodup_reachable (c : Cfg) (ops : List Op) (hm : ∀ op ∈ ops, opModeOK op) :
+    (walk (run c FS.empty ops).1).Pairwise (fun a b => C17.pathLt a.1 b.1) ∧
+    ((walk (run c FS.empty ops).1).map (·.1)).Nodup :=
+  ⟨walk_sorted_nodup _ (C17.wf_reachable c ops hm).1, walk_nodup _ (C17.wf_reachable c ops hm).1⟩
+
+/-- **walk_parents_first** for reachable states (it holds for every state; restated for symmetry) -/
+theorem walk_parents_first_reachable (c : Cfg) (ops : List Op) (l1 l2 : List (List Name × Ino)) (q : List Name)
+    (n : Name) (i : Ino) (h : walk (run c FS.empty ops).1 = l1 ++ (q ++ [n], i) :: l2) :
+    q = [] ∨ ∃ y ∈ l1, y.1 = q :=
+  walk_parents_first _ l1 l2 q n i h
+
+/-- **entries_canonical** without a hypothesis about the state: the layer of every reachable state lists
+every path once, in strictly increasing component-wise order, parents first (only C17's guard is needed) -/
+theorem entries_canonical_reachable (b : Backend) (c : Cfg) (ops : List Op) (hm : ∀ op ∈ ops, opModeOK op) :
+    strictlySorted ((writeTar b (run c FS.empty ops).1).map (·.path)) = true ∧
+    ((writeTar b (run c FS.empty ops).1).map (·.path)).Nodup ∧
+    parentsFirst ((writeTar b (run c FS.empty ops).1).map (·.path)) = true :=
+  entries_canonical b _ (C17.wf_reachable c ops hm).1
+
+/-- **extract_writeTar** without a hypothesis about the state: for every state reachable through guarded
+operations, extracting the emitted entries succeeds and yields the observed tree — under the three decidable
+side conditions that are the recorded findings F06a–d (they are about *which* hard links and xattrs exist,
+not about well-formedness, and do fail on reachable states: `F06a_class` … `F06d_class`) -/
+theorem extract_writeTar_partial_reachable (b : Backend) (c : Cfg) (ops : List Op)
+    (hg : ∀ op ∈ ops, opTarOK op = true)
+    (h1 : linksAfterTargets b (run c FS.empty ops).1 = true) (h2 : linksRegistered b (run c FS.empty ops).1 = true)
+    (h3 : xattrsCaptured (run c FS.empty ops).1 = true) :
+    ∃ x, extract (writeTar b (run c FS.empty ops).1) = .ok x ∧ SameTree x (observeTree b (run c FS.empty ops).1) :=
+  extract_writeTar_partial b _ (tar_wf_reachable_tarOK c ops hg) h1 h2 h3
+
+/-! ### the guard is satisfiable: a sequence with every kind of operation -/
+
+/-- `MkdirAll`, package file (setuid) + symlink + hard link + directory (with xattr) through `WriteHeader`,
+`Chmod` (sticky), `Chown`, `Mkdir` (with `ModeDir` in the argument), `Mknod` (`S_IFCHR|0666`), a dangling
+`Symlink`, a `Link` through a symbolic link, `Remove` of a registered hard link, `SetXattr` -/
+def goodOps : List Op :=
+  [ .mkdirAll (tx "usr/bin") 0o755,
+    .writeHeader { typeflag := 48, name := tx "usr/bin/tool", mode := 0o4755, size := 4, content := tx "body",
+                   checksum := some (tx "s1"), pkgName := tx "pa", pkgOrigin := tx "oa" },
+    .writeHeader { typeflag := 50, name := tx "usr/bin/sh", linkname := tx "tool", mode := 0o777,
+                   checksum := some (tx "s2"), pkgName := tx "pa", pkgOrigin := tx "oa" },
+    .writeHeader { typeflag := 49, name := tx "usr/bin/tool2", linkname := tx "usr/bin/tool", mode := 0o4755 },
+    .writeHeader { typeflag := 53, name := tx "etc", mode := 0o755, xattrs := [(tx "user.a", tx "1")] },
+    .chmod (tx "usr/bin") 0o1777,
+    .chown (tx "usr/bin/tool") 1000 1000,
+    .mkdir (tx "dev") (modeDir + 0o755),
+    .mknod (tx "dev/null") (0o20000 + 0o666) 259,
+    .symlink (tx "/nonexistent") (tx "dangling"),
+    .link (tx "usr/bin/sh") (tx "etc/tool3"),
+    .remove (tx "usr/bin/tool2"),
+    .setXattr (tx "usr/bin/tool") (tx "user.k") (tx "v") ]
+
+/-- … with the operations that go through `openFile` (`decide` cannot run those: well-founded recursion) -/
+def goodOpsOpen : List Op :=
+  goodOps ++ [ .writeFile (tx "etc/passwd") (tx "root:x:0:0::/:/bin/sh\n") 0o644, .create (tx "etc/empty"),
+               .openFile (tx "etc/group") 66 0o644, .write 1 (tx "root:x:0:\n"), .close 1, .readFile (tx "etc/passwd") ]
+
+set_option maxRecDepth 100000 in
+/-- the guard holds of both sequences … -/
+theorem goodOps_guard : (∀ op ∈ goodOps, opTarOK op = true) ∧ (∀ op ∈ goodOpsOpen, opTarOK op = true) := by decide
+
+set_option maxRecDepth 100000 in
+/-- … every operation of the first succeeds (nine nodes), and — cross-checking the invariant theorem on an
+instance — the state it reaches passes the node-by-node check -/
+example : wfCheck (run (Cfg.impl .tarfs) FS.empty goodOps).1 = true ∧
+    (run (Cfg.impl .tarfs) FS.empty goodOps).1.nodes.length = 9 ∧
+    (run (Cfg.impl .tarfs) FS.empty goodOps).2.all (fun o => !o.isErr) = true := by decide
+
+example : WF (run (Cfg.impl .tarfs) FS.empty goodOpsOpen).1 := tar_wf_reachable_tarOK _ _ goodOps_guard.2
+
+/-! ### what the layer contains when the guard is violated by something the code can do -/
+
+/-- **a symbolic link with an empty target** (`Symlink("", "l")`: `mutateSymLink` with an empty `source`, or
+a package symlink entry with an empty link name).  The guard conjunct is violated, the state is reached … -/
+def fsEmptyLink : FS :=
+  { nodes := [ { rootInode with children := [(tx "l", 1)] }, { mode := modeSymlink + 0o777, target := [] } ] }
+
+/-- … through `WriteHeader` the node carries the package entry -/
+def fsEmptyLinkPkg : FS :=
+  { nodes := [ { rootInode with children := [(tx "l", 1)] },
+               { mode := modeSymlink + 0o777, target := [],
+                 te := some { content := [], size := 0, checksum := tx "s", pkgName := tx "pa", pkgOrigin := tx "oa",
+                              pkgReplaces := [] } } ] }
+
+set_option maxRecDepth 100000 in
+theorem emptyLink_reached (bk : Backend) :
+    opTarOK (.symlink [] (tx "l")) = false ∧
+    run (Cfg.impl bk) FS.empty [.symlink [] (tx "l")] = (fsEmptyLink, [.ok .unit]) := by
+  cases bk <;> decide
+
+set_option maxRecDepth 100000 in
+theorem emptyLinkPkg_reached :
+    let h : Hdr := { typeflag := 50, name := tx "l", linkname := [], mode := 0o777, checksum := some (tx "s"),
+                     pkgName := tx "pa", pkgOrigin := tx "oa" }
+    opTarOK (.writeHeader h) = false ∧
+    run (Cfg.impl .tarfs) FS.empty [.writeHeader h] = (fsEmptyLinkPkg, [.ok (.bool true)]) := by
+  decide
+
+theorem walk_emptyLink : walk fsEmptyLink = [([tx "l"], 1)] := by
+  rw [walk_of_sorted _ (by decide)]; rfl
+
+theorem walk_emptyLinkPkg : walk fsEmptyLinkPkg = [([tx "l"], 1)] := by
+  rw [walk_of_sorted _ (by decide)]; rfl
+
+/-- … it is not `WF` (`nodeOK` demands a target) … -/
+theorem emptyLink_not_wf : ¬ WF fsEmptyLink ∧ ¬ WF fsEmptyLinkPkg := by
+  refine ⟨fun h => ?_, fun h => ?_⟩
+  · exact absurd (h.nodes 1) (by decide)
+  · exact absurd (h.nodes 1) (by decide)
+
+/-- … the layer has a symlink entry with an **empty link name** … -/
+theorem emptyLink_layer (bk : Backend) :
+    (writeTar bk fsEmptyLink).map (fun e => (e.path, e.kind, e.mode, e.linkname, e.size)) =
+      [([tx "l"], .symlink, 0o777, [], 0)] ∧
+    (writeTar bk fsEmptyLinkPkg).map (fun e => (e.path, e.kind, e.mode, e.linkname, e.size)) =
+      [([tx "l"], .symlink, 0o777, [], 0)] := by
+  unfold writeTar
+  rw [walk_emptyLink, walk_emptyLinkPkg]
+  cases bk <;> exact ⟨rfl, rfl⟩
+
+/-- … which the *model's* extractor accepts and which gives back the observed tree: in the model the layer
+is faithful, `nodeOK`'s `target ≠ []` is not what `extract_writeTar_partial` rests on.  A real extractor's
+`symlink("", path)` fails with `ENOENT`; that is outside the model of `extract`. -/
+theorem emptyLink_model_faithful (bk : Backend) :
+    (∃ x, extract (writeTar bk fsEmptyLink) = .ok x ∧ SameTree x (observeTree bk fsEmptyLink)) ∧
+    (∃ x, extract (writeTar bk fsEmptyLinkPkg) = .ok x ∧ SameTree x (observeTree bk fsEmptyLinkPkg)) := by
+  constructor
+  · cases bk <;>
+    · refine ⟨_, by unfold writeTar; rw [walk_emptyLink]; rfl, ?_⟩
+      unfold observeTree
+      rw [walk_emptyLink]
+      decide
+  · cases bk <;>
+    · refine ⟨_, by unfold writeTar; rw [walk_emptyLinkPkg]; rfl, ?_⟩
+      unfold observeTree
+      rw [walk_emptyLinkPkg]
+      decide
+
+/-- **package entries of a type `tarfs` does not accept** (FIFO `'6'`, block `'4'` and character `'3'` devices,
+anything but `'0' '1' '2' '5'`): `WriteHeader` fails and the file system is unchanged — no such node reaches
+the layer (the installation, and with it the build, fails) -/
+theorem writeHeader_unsupported_type (c : Cfg) (fs : FS) (h : Hdr)
+    (ht : h.typeflag ≠ 53 ∧ h.typeflag ≠ 48 ∧ h.typeflag ≠ 50 ∧ h.typeflag ≠ 49) :
+    step c fs (.writeHeader h) = (fs, .err .unsupported) := by
+  obtain ⟨h1, h2, h3, h4⟩ := ht
+  simp only [step, writeHeaderOp, h1, h2, h3, h4, if_false, or_self]
+  split <;> rfl
+
+/-- **`Mknod` with a mode that does not say "character device"** (`S_IFBLK`, `S_IFIFO`, …: bits 12–15 of the
+`uint32`, which are not `fs.ModeType` bits): the node is a character device all the same -/
+theorem mknod_always_char (mode ma mi : Nat) (mt : Int) (h31 : mode.testBit 31 = false) (h27 : mode.testBit 27 = false) :
+    obsKind { mode := mode ||| modeCharDevice ||| modeDevice, major := ma, minor := mi, mtime := mt } = .char := by
+  have b31 : (mode ||| modeCharDevice ||| modeDevice).testBit 31 = false := by
+    simp only [Nat.testBit_or, h31]; decide
+  have b27 : (mode ||| modeCharDevice ||| modeDevice).testBit 27 = false := by
+    simp only [Nat.testBit_or, h27]; decide
+  have b26 : (mode ||| modeCharDevice ||| modeDevice).testBit 26 = true := by
+    simp only [Nat.testBit_or]; simp [show modeDevice.testBit 26 = true by decide]
+  have b21 : (mode ||| modeCharDevice ||| modeDevice).testBit 21 = true := by
+    simp only [Nat.testBit_or]; simp [show modeCharDevice.testBit 21 = true by decide]
+  simp [obsKind, b31, b27, b26, b21]
+
+/-- `Mknod("sda", S_IFBLK|0660, mkdev(8, 0))` … -/
+def fsMknodBlk : FS :=
+  { nodes := [ { rootInode with children := [(tx "sda", 1)] },
+               { mode := (0o60000 + 0o660) ||| modeCharDevice ||| modeDevice, major := 8, minor := 0 } ] }
+
+set_option maxRecDepth 100000 in
+theorem mknodBlk_reached (bk : Backend) :
+    opTarOK (.mknod (tx "sda") (0o60000 + 0o660) (unixMkdev 8 0)) = true ∧
+    run (Cfg.impl bk) FS.empty [.mknod (tx "sda") (0o60000 + 0o660) (unixMkdev 8 0)] = (fsMknodBlk, [.ok .unit]) := by
+  cases bk <;> decide
+
+theorem walk_mknodBlk : walk fsMknodBlk = [([tx "sda"], 1)] := by
+  rw [walk_of_sorted _ (by decide)]; rfl
+
+/-- … is within the guard, well-formed, and the layer faithfully says what the file system says: a
+*character* device 8:0 with mode 0660.  The loss (block → character) happens in `Mknod`, not in `writeTar` -/
+theorem mknodBlk_layer (bk : Backend) :
+    WF fsMknodBlk ∧
+    (writeTar bk fsMknodBlk).map (fun e => (e.path, e.kind, e.mode, e.devmajor, e.devminor)) =
+      [([tx "sda"], .char, 0o660, 8, 0)] := by
+  refine ⟨wf_of_check _ (by decide), ?_⟩
+  unfold writeTar
+  rw [walk_mknodBlk]
+  cases bk <;> rfl
 
 /-! ## ties to the source (regenerated on every run by `extract/tar.go`) -/
 
